@@ -318,7 +318,7 @@ func replay(c *vlib.Ctx, w string) {
 func init() {
 	vlib.Register(&vlib.Check{
 		ID: "C17", Engine: "E2",
-		Rule: "lists of n = 0..N distinct items x1..xn are injected as typed stdin (str list, json array; thorough also jsonl) and filtered with `[s..e]` and `[s..e]e` for every start and end in {omitted} u [LO, HI]; quick N=8 LO=-4 HI=12, thorough N=30 LO=-5 HI=35. The printed items are compared with a slice model for the forms the statement defines (1<=s<=e; [s..]; [..e]; [-k..] with k<=n; with e: s+1..e-1 when both bounds are given, otherwise a contiguous slice without the named end-point item); every case must exit cleanly or fail with a message, print an in-order subsequence of the input and never report a panic. non-trivial = a defined form on a non-empty list whose model result is a proper part of the input, or any defined form with the e flag",
+		Rule:   "lists of n = 0..N distinct items x1..xn are injected as typed stdin (str list, json array; thorough also jsonl) and filtered with `[s..e]` and `[s..e]e` for every start and end in {omitted} u [LO, HI]; quick N=8 LO=-4 HI=12, thorough N=30 LO=-5 HI=35. The printed items are compared with a slice model for the forms the statement defines (1<=s<=e; [s..]; [..e]; [-k..] with k<=n; with e: s+1..e-1 when both bounds are given, otherwise a contiguous slice without the named end-point item); every case must exit cleanly or fail with a message, print an in-order subsequence of the input and never report a panic. non-trivial = a defined form on a non-empty list whose model result is a proper part of the input, or any defined form with the e flag",
 		Run:    run,
 		Replay: replay,
 		Assumptions: []string{
